@@ -73,8 +73,45 @@ def h_many_legacy(r0: int, r1: int, r2: int, r3: int, n0: int, n1: int, nfiles: 
     return _ok_paths(files, basepath, fmd, rowspec) and fmd.num_rows == total and all_chunks
 
 
-def replay_h_many_legacy(**kw):
-    return None, "no concrete driver"
+def _real_files(specs, flat):
+    """real files with row groups of the given sizes; returns (dir, paths, frames)"""
+    import tempfile
+    import pandas as pd
+    import fastparquet
+    d = tempfile.mkdtemp(prefix="c14-")
+    names = ["a.parq", "b.parq", "c.parq"] if flat else ["k=1/a.parq", "k=2/a.parq", "k=3/a.parq"]
+    paths, frames = [], []
+    base = 0
+    for name, rows in zip(names, specs):
+        rows = [min(max(int(r), 1), 20) for r in rows] or [1]
+        fn = os.path.join(d, "root", name)
+        os.makedirs(os.path.dirname(fn), exist_ok=True)
+        df = pd.DataFrame({"x": list(range(base, base + sum(rows)))})
+        base += 1000
+        offs = [0]
+        for n in rows[:-1]:
+            offs.append(offs[-1] + n)
+        fastparquet.write(fn, df, row_group_offsets=offs)
+        paths.append(fn)
+        frames.append(df)
+    return d, paths, frames
+
+
+def replay_h_many_legacy(r0, r1, r2, r3, n0, n1, nfiles, flat):
+    import shutil
+    import fastparquet
+    specs = [[r0, r1][:n0], [r2, r3][:n1]][:nfiles]
+    d, paths, frames = _real_files(specs, flat)
+    try:
+        pf = fastparquet.ParquetFile(paths, verify=True)
+        out = list(pf.to_pandas()["x"])
+        want = [v for f in frames for v in f["x"]]
+        if out != want or pf.count() != len(want):
+            return True, "ParquetFile(%d files) returns %d rows (count %d); the files hold %d rows in the given " \
+                         "order" % (len(paths), len(out), pf.count(), len(want))
+        return False, "concatenation"
+    finally:
+        shutil.rmtree(d, ignore_errors=True)
 
 
 def h_many_schema_mismatch(which: int) -> bool:
@@ -98,7 +135,23 @@ def h_many_schema_mismatch(which: int) -> bool:
 
 
 def replay_h_many_schema_mismatch(which):
-    return None, "no concrete driver"
+    import shutil, tempfile
+    import pandas as pd
+    import fastparquet
+    d = tempfile.mkdtemp(prefix="c14-")
+    try:
+        paths = []
+        for i in range(3):
+            fn = os.path.join(d, "f%d.parq" % i)
+            fastparquet.write(fn, pd.DataFrame({"x": [1, 2]} if i != which else {"x": ["u", "v"]}))
+            paths.append(fn)
+        try:
+            fastparquet.ParquetFile(paths, verify=True)
+        except ValueError:
+            return False, "rejected"
+        return True, "files with differing schemas are accepted although verification was requested"
+    finally:
+        shutil.rmtree(d, ignore_errors=True)
 
 
 class _Piece:
@@ -242,4 +295,9 @@ def h_analyse_paths_root(a: str, b: str) -> bool:
 
 
 def replay_h_analyse_paths_root(a, b):
-    return None, "no concrete driver"
+    import fastparquet.util as u
+    files = [a + "/" + b + "/f.parq", a + "/" + b + "/g.parq"]
+    base, rel = u.analyse_paths(files, root=a)
+    if base != a or rel != [b + "/f.parq", b + "/g.parq"]:
+        return True, "analyse_paths(%r, root=%r) = (%r, %r)" % (files, a, base, rel)
+    return False, "agrees"
